@@ -41,6 +41,17 @@ GROUP_Q = ["captured_path", "captured_segments", "captured_edges", "induced_set"
 
 def gen(streams, tier, i):
     scn = c05.gen(streams, tier, i)
+    qx = streams.get("queries_extra")
+    if scn["cfg"]["version"] == "gfa1" and qx.random() < 0.5:
+        # read-only queries must be pure for every CIGAR, S and N operations included
+        segs = sorted(set(o["line"].split("\t")[1] for o in scn["ops"] if o["op"] == "add" and o["line"].startswith("S\t")))
+        if segs:
+            from .. import gen as G2
+            for _ in range(qx.randint(1, 3)):
+                a, b = qx.choice(segs), qx.choice(segs)
+                scn["ops"].insert(qx.randint(1, len(scn["ops"])),
+                                  {"op": "add", "line": "\t".join(["L", a, qx.choice("+-"), b, qx.choice("+-"),
+                                                                    G2.gen_cigar(qx, "allsn", 9, 9)]), "as": "str"})
     qr = streams.get("queries")
     ops = scn["ops"]
     nb = qr.randint(2, 6 if tier == "quick" else 10)
